@@ -97,7 +97,8 @@ def generate(rng, tier, focus, k=None):
     tr["distractors"] = {"txt": rng.random() < 0.5, "absent_species": rng.random() < 0.5, "system_in_list": rng.random() < 0.5,
                          "start_coordinates": rng.random() < 0.5,
                          "near_miss": rng.random() < 0.4, "previous_output": rng.random() < 0.35, "dotted_names": rng.random() < 0.3,
-                         "itp_style": rng.choice([0, 0, 1, 2, 3, 4, 5]), "other_spelling": rng.random() < 0.5}
+                         "itp_style": rng.choice([0, 0, 1, 2, 3, 4, 5]), "other_spelling": rng.random() < 0.5,
+                         "per_species_dirs": rng.random() < 0.2}
     tr["auto_out"] = rng.choice(["abs", "abs", "rel", "default"])
     tr["list_seed"] = rng.randrange(2 ** 31)
     tr["set_seeds"] = [rng.randrange(2 ** 31) for _ in range(3)]
@@ -442,10 +443,20 @@ def exec_auto_shipped(trace, ctx):
 # discovery
 # --------------------------------------------------------------------------
 
-def build_candidates(trace, d):
+def build_candidates(trace, d, allow_dirs=False):
     world = trace["world"]
     paths = W.write_world(d, world, dotted=bool(trace["distractors"].get("dotted_names")),
                           itp_style=int(trace["distractors"].get("itp_style") or 0))
+    if allow_dirs and trace["distractors"].get("per_species_dirs"):
+        # one directory per species, the SAME three file names in each (cg.itp, aa.gro, aa.itp): files are told apart by their
+        # paths, not by their base names
+        for k_, p_ in enumerate(paths["species"]):
+            sub = os.path.join(d, "sp%d" % k_)
+            os.makedirs(sub, exist_ok=True)
+            for key, fn in (("top_start", "cg.itp"), ("gro_end", "aa.gro"), ("top_end", "aa.itp")):
+                q = os.path.join(sub, fn)
+                os.replace(p_[key], q)
+                p_[key] = q
     status = trace["status"]
     cands = []
     explicit = []
@@ -537,7 +548,9 @@ def exec_discover(trace, ctx):
     import gaddlemaps._cli as C
     world = trace["world"]
     d = ctx.tmpdir()
-    paths, cands, explicit, expected = build_candidates(trace, d)
+    paths, cands, explicit, expected = build_candidates(trace, d, allow_dirs=True)
+    if trace["distractors"].get("per_species_dirs"):
+        ctx.probe("one_directory_per_species_same_file_names")
     lr = _r.Random(trace["list_seed"])
     real_classify = C.classify_files
     results = []
